@@ -88,6 +88,8 @@ PROPS["C09"] = {
             "fileBuffer code), NewSize(req) at 4 KiB granularity and NewFilePipe at 4 MiB; chunk sizes 0, 1, cap-1, cap, cap+1, 3cap+7, "
             "exactly-buffered, exactly-free, random; every op sequence up to a fixed length over three small alphabets on rings of 2 and 3 "
             "bytes; blocked/woken observed exactly through the cond ticket counters + grace period. "
+            "multi-<kind>: several pipes of one kind and size in one case — 1-3 pipes live a whole life one after the other (written, closed by the writer, "
+            "drained, closed by the reader, and other orders), then 2-3 pipes are open side by side with interleaved traffic; one model instance per pipe. "
             "non-trivial = at least one Read/Write parked or an in-flight op was completed by another op; distinct by case text",
     "nontrivial": _nontrivial,
     "equal": _equal,
